@@ -28,8 +28,8 @@ type c17 struct {
 }
 
 func checkC17(p *Program, r *Report) {
-	r.Explain = "C17.round: every return of the rounding helper is int(f − 0.5) where f may be negative and int(f + 0.5) where it may be positive (or math.Round / Copysign forms), " +
-		"decided over the sign classes the dominating comparisons leave. C17.create: every accepting return of NewAmount is the helper applied to the single product f·1e8 and lies behind the " +
+	r.Explain = "C17.round: every return of the rounding helper is int(math.Round(f)) — an exact rounding, half away from zero; the int(f ± 0.5) forms are classified over the sign classes their " +
+		"dominating comparisons leave and then refused all the same, because the addition rounds a second time (defect F15). C17.create: every accepting return of NewAmount is the helper applied to the single product f·1e8 and lies behind the " +
 		"rejection of NaN, +Inf and −Inf. C17.unit: ToUnit is float64(a) / math.Pow10(u+8) — one division of exact operands — and ToBCH is that with u = 0. C17.format: Format is " +
 		"FormatFloat(ToUnit(u), 'f', −(u+8), 64) + \" \" + u.String(), String is Format(AmountBCH). C17.labels: the six named units have the specified exponents and labels and every other " +
 		"unit prints \"1e<N> BCH\". C17.mul: MulF64 is the helper applied to the single product float64(a)·f. C17.const: SatoshiPerBitcent, SatoshiPerBitcoin, MaxSatoshi. C17.shared: no mutable " +
@@ -320,12 +320,18 @@ func (c *c17) roundHelper(h *ssa.Function) bool {
 			continue
 		}
 		good := true
-		how := form
+		how := "math.Round: exact, half away from zero"
 		if keep[0] && !(form == "minus" || form == "round" || form == "copysign") {
 			good, how = false, "negative arguments reach int(f + 0.5): −0.6 would round to 0"
 		}
 		if keep[2] && !(form == "plus" || form == "round" || form == "copysign") {
 			good, how = false, "positive arguments reach int(f − 0.5): 0.6 would round to 0"
+		}
+		if good && form != "round" {
+			// defect F15: adding one half is itself a floating-point operation.  0.49999999999999994 + 0.5 rounds to 1.0, so
+			// a product just below one half becomes 1 satoshi, and for odd integers in [2^52, 2^53) f + 0.5 is a tie that
+			// rounds to the even neighbour.  Only an exact rounding (math.Round) gives "the nearest whole number".
+			good, how = false, "int(f ± 0.5) rounds twice: 0.49999999999999994 + 0.5 == 1.0 in float64, so a value below one half becomes 1; 2^52+1 becomes 2^52+2"
 		}
 		c.r.Add("C17.round", FnName(h), what, pa.pos, good, how)
 	}
